@@ -121,3 +121,11 @@ impl<'a, K, T> Entry<'a, K, Vec<T>> {
 impl core::fmt::Debug for Error {
     fn fmt(&self, f: &mut core::fmt::Formatter<'_>) -> core::fmt::Result { Ok(()) }
 }
+
+// R11 idiom stub: `if let Some(&v) = map.get(k)` (ref pattern, not ingestible) == `if let Some(v) = map.get(k).copied()`
+impl<K, V: Copy> IndexMap<K, V> {
+    #[verifier::external_body]
+    pub fn idiom_get_copied(&self, k: &K) -> (r: Option<V>)
+        ensures r == (if im_has(self@, *k) { Some(im_get(self@, *k)) } else { None::<V> }),
+    { unimplemented!() }
+}
